@@ -40,6 +40,8 @@ pub struct GameServerStatus {
 
 #[derive(Deserialize, Serialize, Clone, Debug, Default, JsonSchema)]
 pub struct GameServerPort {
+    // a port need not be named, the API leaves an empty name out
+    #[serde(default)]
     pub name: String,
     pub port: u16,
 }
